@@ -189,15 +189,17 @@ func (w *cliWorld) writeSkeleton(dir string) error {
 	}
 	return WriteTree(dir, map[string]string{
 		// (the "// indirect" mark is stale on purpose: loading packages must not tidy the file)
-		"go.mod":           "module " + ModPath + "\n\ngo 1.21\n\nrequire github.com/google/wire v0.0.0 // indirect\n\nreplace github.com/google/wire => ./wiremod\n",
-		"wiremod/go.mod":   "module github.com/google/wire\n\ngo 1.21\n",
-		"wiremod/wire.go":  string(marker),
-		"header.txt":       "// Copyright header line 1\n// line 2\n\n",
-		"badheader.txt":    "Copyright (c) Example Corp. This line is not a Go comment.\n\n",
-		"blank/blank.go":   "package blank\n",
-		"README.txt":       "not a go file\n",
-		"linedir/gram.y":   "% not Go: the file a //line directive points to\n",
-		"shared/shared.go": sharedSource(w.sharedVar),
+		"go.mod":          "module " + ModPath + "\n\ngo 1.21\n\nrequire github.com/google/wire v0.0.0 // indirect\n\nreplace github.com/google/wire => ./wiremod\n",
+		"wiremod/go.mod":  "module github.com/google/wire\n\ngo 1.21\n",
+		"wiremod/wire.go": string(marker),
+		"header.txt":      "// Copyright header line 1\n// line 2\n\n",
+		"badheader.txt":   "Copyright (c) Example Corp. This line is not a Go comment.\n\n",
+		"blank/blank.go":  "package blank\n",
+		"README.txt":      "not a go file\n",
+		// a directory that only holds a test: ./... matches it, there is nothing to generate
+		"testonly/x_test.go": "package testonly\n\nimport \"testing\"\n\nfunc TestNothing(t *testing.T) {}\n",
+		"linedir/gram.y":     "% not Go: the file a //line directive points to\n",
+		"shared/shared.go":   sharedSource(w.sharedVar),
 	})
 }
 
